@@ -386,11 +386,11 @@ def tail(R):
             if isinstance(a, ast.Name):
                 # the fragment payload taken into a local first (possibly a PY2/PY3 conditional expression)
                 a = rd.origin(n, a)[0]
-                if isinstance(a, ast.IfExp):
-                    from ..program import py_const
-                    pc = py_const(a.test, f.module)
-                    if pc is not None:
-                        a = a.body if pc else a.orelse
+            if isinstance(a, ast.IfExp):
+                from ..program import py_const
+                pc = py_const(a.test, f.module)
+                if pc is not None:
+                    a = a.body if pc else a.orelse
             if isinstance(a, ast.Call) and U(a.func) in ('bytes', 'bytearray') and a.args:
                 a = a.args[0]
             okf = U(p.iter) == frames and U(a) == '%s.payload' % U(p.target)
